@@ -305,7 +305,7 @@ fn macro_call_module_id_initial<'db>(
 ///
 /// If `include_all` is true, all modules are returned, regardless if exposed, or are the main
 /// module.
-#[salsa::tracked(returns(ref))]
+#[salsa::tracked(returns(ref), cycle_fn=module_macro_modules_cycle, cycle_initial=module_macro_modules_initial)]
 pub fn module_macro_modules<'db>(
     db: &'db dyn Database,
     include_all: bool,
@@ -329,6 +329,27 @@ pub fn module_macro_modules<'db>(
         }
     }
     modules
+}
+
+/// Cycle handling for [module_macro_modules].
+fn module_macro_modules_cycle<'db>(
+    _db: &'db dyn Database,
+    _cycle: &salsa::Cycle<'_>,
+    _last_provisional_value: &Vec<ModuleId<'db>>,
+    value: Vec<ModuleId<'db>>,
+    _include_all: bool,
+    _module_id: ModuleId<'db>,
+) -> Vec<ModuleId<'db>> {
+    value
+}
+/// Cycle handling for [module_macro_modules].
+fn module_macro_modules_initial<'db>(
+    _db: &'db dyn Database,
+    _id: salsa::Id,
+    _include_all: bool,
+    _module_id: ModuleId<'db>,
+) -> Vec<ModuleId<'db>> {
+    vec![]
 }
 
 /// Returns all modules reachable from the crate root, following both submodule and macro call
